@@ -203,6 +203,14 @@ def _run(ctx, replay):
                         ops=ops[:i + 1], env=env, got=a, expected='array contents as before the call', label=label)); break
                 if may and not changed:
                     rep['tie_broken'].append('%s: `%s` reports success but the contents of the built-in crystal array did not change: the per-call array checksum does not observe it' % (label, o))
+            # open descriptors, per call: no call may leave one more (or one less) open — whatever kind of file it was handed
+            if a is not None:
+                stats['fd_checks'] = stats.get('fd_checks', 0) + 1
+                if ' FDS:' in a:
+                    m_ = re.search(r' FDS:(\d+)>(\d+)', a)
+                    findings.append(dict(kind='descriptors', what='the call left the process with %s open file descriptors instead of %s (a descriptor %s): the descriptor table is process-global state' % (
+                        m_.group(2), m_.group(1), 'leaked' if int(m_.group(2)) > int(m_.group(1)) else 'closed that was not the call\'s own'), ops=ops[:i + 1], env=env, got=a,
+                        expected='as many open descriptors after the call as before it', label=label)); break
             if a is not None and ' LOCALE>' in a:
                 findings.append(dict(kind='locale', what='the call changed the process locale: LC_ALL is now %s' % a[a.index('LOCALE>') + 7:].split(' ')[0], ops=ops[:i + 1], env=env,
                                      got=a, expected='locale as before the call (every category)', label=label, per_call=True)); break
@@ -261,6 +269,17 @@ def _run(ctx, replay):
             stats['failed_insertions_checked'] = len([i for i, o in enumerate(ops) if opname(o) in INSERTING and not (h['res'].get(i) or '').startswith('i:1')])
         return h, fr
 
+    def hidden_state_groups(g, ops, npairs=None):
+        """in EVERY history, whatever the seed: (1) groups `call that leaves errno = ERANGE (overflowing / underflowing subscript, crystal file with 1e-400,
+        the application itself) -> query that converts a subscript` as adjacent runs; (2) one Crystal_ReadFile per exit path of that function (every
+        file of tools/xrlops.py, a directory, /dev/null, a NULL and a missing name), into a user array and — the directory — into the built-in one"""
+        npairs = npairs if npairs is not None else (24 if ctx.tier == 'quick' else 60)
+        groups = g.errno_pairs(npairs)
+        fileops = [['ReadFileUser %s %s' % ('~' if f_ == '~' else xrlops.esc(f_), 'E')] for f_ in files + xrlops.SPECIAL_PATHS + ['xv_missing.dat']]
+        fileops += [['ReadFileDirUser E'], ['ReadFileDir E'], ['retain-ReadFileDirUser E'], ['ReadFileDir N'], ['ReadFileMissing E']]
+        stats['errno_groups'] = stats.get('errno_groups', 0) + len(groups); stats['file_exit_path_ops'] = stats.get('file_exit_path_ops', 0) + len(fileops)
+        return g.insert_groups(ops, groups + fileops, g.rng)
+
     C_ENV = dict(LC_ALL='C')
     if replay:
         txt = open(replay).read()
@@ -284,8 +303,9 @@ def _run(ctx, replay):
             g = xrlops.OpGen(random.Random(ctx.rng.getrandbits(64)), meta, files=files)
             ops = g.ops(nops, allow_retain=True)
             ops = [o for o in ops if opname(o) not in INSERTING]
+            if i % 2 == 0: ops = [o for o in ops if o != 'XRayInit']
+            ops = hidden_state_groups(g, ops)
             if i % 2 == 1: ops = ['XRayInit'] + ops           # with and without XRayInit
-            else: ops = [o for o in ops if o != 'XRayInit']
             all_ops += ops
             check_history(ops, C_ENV, 'history %d' % i)
         stats['distinct_ops'] = len(set(all_ops))
@@ -299,6 +319,8 @@ def _run(ctx, replay):
         # judged per call by the contents checksum (` ARR!`), and by the lookups of XvNew / XvGood below, which must fail as in a fresh process
         ops.insert(300, 'retain-AddBuiltin @Si Si E'); ops.insert(420, 'AddBuiltin @Ge %s N' % names[0])
         ops.insert(430, 'retain-ReadFileBuiltin xv_dup.dat E'); ops.insert(440, 'ReadFileBuiltin xv_bad.dat E'); ops.insert(450, 'AddBuiltin @Unobtainium Qq E')
+        # every other failing exit of Crystal_ReadFile, and a directory, with the BUILT-IN array as the target
+        ops[460:460] = ['ReadFileBuiltin %s E' % f_ for f_ in ('xv_badS.dat', 'xv_nocell.dat', 'xv_twocell.dat', 'xv_trunc.dat', 'xv_badatom.dat', 'xv_twice.dat', 'xv_missing.dat')] + ['ReadFileDir E']
         # a SUCCESSFUL Crystal_ReadFile into the built-in array
         ops.insert(500, 'ReadFileBuiltin xv_user2.dat E')
         ops += ['GetCrystal %s E' % names[0], 'CrystalsList E', 'AddBuiltin @Si %s E' % names[0], 'GetCrystal XvTric E', 'GetCrystal XvNew E', 'GetCrystal XvGood E', 'GetCrystal Qq N',
@@ -322,7 +344,7 @@ def _run(ctx, replay):
                     if r_ < 0.55: g.allow_retain = True; ops.append(g.generic_op(g.rng.choice(famg)))
                     elif r_ < 0.70 and good: ops.append(g.rng.choice(good))
                     else: ops.append(g.op(True))
-                ops = [o for o in ops if opname(o) not in INSERTING]
+                ops = hidden_state_groups(g, [o for o in ops if opname(o) not in INSERTING], 12)
                 if i == 0: ops = good + ops                  # every function's known-good calls at least once, first in a history …
                 else: ops = ops + good                       # … and last
                 if i % 2 == 1: ops = ['XRayInit'] + ops
@@ -376,6 +398,7 @@ def _run(ctx, replay):
             for e_ in locfam:
                 for _ in range(3): ops.insert(g.rng.randrange(len(ops) + 1), g.generic_op(e_))
             stats['locale_family_entries_in_locale_history'] = len(locfam)
+            ops = hidden_state_groups(g, ops, 12)
             check_history(ops, env_, 'history under %s' % ' '.join('%s=%s' % kv for kv in env_.items()))
         if HR is not None:
             g = xrlops.OpGen(random.Random(ctx.rng.getrandbits(64)), meta, files=files); g.allow_retain = True
@@ -413,7 +436,7 @@ def _run(ctx, replay):
                     check_history(ops, C_ENV, 'targeted history %d (%s)' % (rnd, ','.join(ents_g[:4])))
                     if HR is not None and any(e_ in fam for e_ in ents_g):
                         check_history([o for o in ops if opname(o) in fam] + kissel_good_ops(meta, [e_ for e_ in ents_g if e_ in fam]), C_ENV, 'targeted Kissel history %d' % rnd, H=HR)
-                    if any(f['kind'] in ('result', 'tables', 'retained', 'stderr', 'stdout', 'crystal-array') for f in findings): break
+                    if any(f['kind'] in ('result', 'tables', 'retained', 'stderr', 'stdout', 'crystal-array', 'descriptors') for f in findings): break
 
     # ---- shrink + classify ---------------------------------------------------------------------------------
     def differs(ops, env, kind, H):
@@ -423,6 +446,9 @@ def _run(ctx, replay):
         if kind == 'crystal-array':
             h = H.run('hist', ops, env)
             return h['rc'] == 0 and ' ARR!' in (h['res'].get(len(ops) - 1) or '')
+        if kind == 'descriptors':
+            h = H.run('hist', ops, env)
+            return h['rc'] == 0 and ' FDS:' in (h['res'].get(len(ops) - 1) or '')
         if kind == 'stderr':
             h = H.run('hist', ops, env)
             return h['rc'] == 0 and bool(stderr_unexpected(h['stderr']))
@@ -437,10 +463,10 @@ def _run(ctx, replay):
 
     def shrink(f):
         ops = list(f['ops']); kind = f['kind']; env = f['env']; Hf = f.get('H', H)
-        if kind not in ('result', 'locale', 'tables', 'retained', 'crystal-array', 'stderr', 'process-state') or not differs(ops, env, kind, Hf): return ops
-        keep_last = kind in ('result', 'crystal-array')
+        if kind not in ('result', 'locale', 'tables', 'retained', 'crystal-array', 'stderr', 'process-state', 'descriptors') or not differs(ops, env, kind, Hf): return ops
+        keep_last = kind in ('result', 'crystal-array', 'descriptors')
         n = 2; budget = 120
-        while len(ops) > (2 if keep_last else 1) and budget > 0:
+        while len(ops) > (2 if kind == 'result' else 1) and budget > 0:      # a result needs a history AND the query; a trace can be left by one call
             body = ops[:-1] if keep_last else ops
             chunk = max(1, len(body) // n); reduced = False
             for s in range(0, len(body), chunk):
@@ -529,13 +555,20 @@ def _run(ctx, replay):
                     'call texts (function + argument tuple) that were executed inside a history, agreed with the fresh process AND produced a value or '
                     'object rather than an error; distinct_failing_calls counts the distinct erroring ones; both are summed over the two data configurations '
                     '(tables as shipped, where data/kissel_pe.dat is empty and the Kissel/cascade family can only fail; tables with kissel_pe.dat regenerated from '
-                    'data/kissel, where it succeeds: history_stats.kissel.succeeded_per_function)',
+                    'data/kissel, where it succeeds: history_stats.kissel.succeeded_per_function).  Hidden per-thread state: errno is carried from call to call as in an application '
+                    'that makes the calls back to back (a process without history starts with errno = 0), and EVERY history contains adjacent groups `call that leaves errno = ERANGE '
+                    '(CompoundParser of a subscript with 400 digits / an underflowing one; a SUCCESSFUL Crystal_ReadFile of a file containing 1e-400, 1e400; the application: AppErrno 34, '
+                    'AppFe 1 = all floating-point exception flags raised) -> query that converts a subscript or number (CompoundParser, _CP functions, Refractive_Index*, add_compound_data, '
+                    'Crystal_ReadFile)` (history_stats.errno_groups).  Descriptors: the number of open file descriptors is compared after EVERY call (history_stats.fd_checks), and every history '
+                    'contains one Crystal_ReadFile per exit path of that function (directory, /dev/null, empty / blank / comment-only file, NULL and missing name, malformed #S, no / two #UCELL, '
+                    'truncated, bad atom line, duplicate name, out-of-range numbers: history_stats.file_exit_path_ops)',
                samples=[dict(call=o) for o in (all_ops[:3] + all_ops[-3:] if not replay else [])] +
                        [dict(finding=f['what'], minimal_history=f.get('min'), env=f['env']) for f in findings[:3]],
                footprint=dict(functions=len(meta['functions']), public=len(meta['classes']), classes={c: sum(1 for v in meta['classes'].values() if v == c) for c in set(meta['classes'].values())},
                               writers={n: f['writes'] for n, f in meta['functions'].items() if f['writes'] or f['unknown_writes']},
                               statics={n: f['statics'] for n, f in meta['functions'].items() if f['statics']},
                               external_callees=sorted(set(x for f in meta['functions'].values() for x in f['exts'])),
+                              errno_reads={n: f['errno_reads'] for n, f in meta['functions'].items() if f.get('errno_reads')},
                               locale_protocols=protos, selftest_idioms=meta.get('selftest_idioms'), table_sha256=meta['sha256'], regenerated_text_changed=changed),
                lean_verdicts=ev, history_stats=stats,
                public_functions_exercised=len(ex), public_functions_not_exercised=sorted(set(meta['classes']) - ex) if not replay else None,
